@@ -60,7 +60,7 @@ def stop_boundary_now(w, d):
 def gen_calc(rng, idx):
     """Boundary-directed: picks one comparison atom of the documented procedure and places the input at
     difference -1 / 0 / +1 from where it flips.  Returns (line, tags)."""
-    atom = rng.choice(["lagallowed", "stop", "recent", "rewind", "recover", "lagok", "stall", "lagdec", "random",
+    atom = rng.choice(["lagallowed", "stop", "recent", "rewind", "recover", "rewind2", "lagok", "stall", "lagdec", "random",
                        "extreme", "nilfirst", "two"])
     d = rng.choice([-1, 0, 1])
     w = base_window(rng)
@@ -68,6 +68,9 @@ def gen_calc(rng, idx):
     curlag = allowed + rng.choice([1, 1, 5, 1000])
     brokers = [w[-1][0] + rng.choice([1, 5, 100]) + i for i in range(rng.randrange(0, 6))]
     now = stop_boundary_now(w, rng.choice([-5, -1, 0, 1, 1, 5, 100]))
+    if atom in ("rewind", "recover", "rewind2", "lagok", "stall", "lagdec") and rng.random() < 0.7:
+        # the rules after STOP: keep most of these cases from ending at the STOP exit (clock inside the window's span)
+        now = stop_boundary_now(w, rng.choice([-5, -1, 0]))
     tags = [atom, "d=%d" % d]
 
     def apply(atom, d):
@@ -105,6 +108,23 @@ def gen_calc(rng, idx):
                     w[j][0] = w[i - 1][0] - 1
             j = rng.randrange(i + 1, len(w))
             w[j][0] = w[i - 1][0] + d
+        elif atom == "rewind2" and len(w) >= 4:
+            # a first backward step that IS recovered, then a second one at distance d from "no step"; after it either
+            # nothing gets back to the offset before the second step (unrecovered) or one commit does, at distance d2
+            for j in range(1, len(w)):
+                w[j][0] = w[j - 1][0] + rng.choice([1, 2, 5])
+            i = rng.randrange(1, len(w) - 2)
+            top = w[i - 1][0]
+            w[i][0] = top - rng.choice([1, 5])
+            w[i + 1][0] = top + rng.choice([0, 1])          # recovered
+            m = rng.randrange(i + 2, len(w))
+            for j in range(i + 2, m):
+                w[j][0] = w[j - 1][0] + rng.choice([0, 1])
+            w[m][0] = w[m - 1][0] + d                        # d = -1: the second backward step
+            for j in range(m + 1, len(w)):
+                w[j][0] = min(w[m - 1][0] - 1, w[j - 1][0] + rng.choice([0, 1]))
+            if m + 1 < len(w) and rng.random() < 0.4:
+                w[rng.randrange(m + 1, len(w))][0] = w[m - 1][0] + rng.choice([-1, 0, 1])
         elif atom == "lagok":
             for o in w:
                 if o[3] is not None and o[3] <= allowed:
@@ -145,7 +165,7 @@ def gen_calc(rng, idx):
             allowed = rng.randrange(0, 20)
 
     if atom == "two":
-        a1, a2 = rng.sample(["stop", "recent", "rewind", "recover", "lagok", "stall", "lagdec"], 2)
+        a1, a2 = rng.sample(["stop", "recent", "rewind", "recover", "rewind2", "lagok", "stall", "lagdec"], 2)
         apply(a1, rng.choice([-1, 0, 1]))
         apply(a2, d)
         tags = ["two:%s+%s" % (a1, a2), "d=%d" % d]
